@@ -117,12 +117,9 @@ def _never_mutated(prog: Program, mod: Module, name: str) -> bool:
     return True
 
 
-def run(prog: Program, rep, tier: str) -> None:
-    rep.explanation = EXPLANATION
-    rep.assumptions += ["numpy / scipy kernels are deterministic", "the caller's Problem is itself stateless or caches safely (C11 covers what the library does to it)"]
+def static_state(prog: Program, rep, mods) -> int:
+    """module-level and class-level bindings of the given modules are constants (no hidden state carrier, no cache shared by all solves)"""
     n_bind = 0
-    mods = [m for m in prog.modules.values() if prog.in_scope(m)]
-    # ---- rule 1: module-level state, class-level attributes, defaults -------------------------
     for mod in mods:
         for st in mod.tree.body:
             targets = []
@@ -168,6 +165,15 @@ def run(prog: Program, rep, tier: str) -> None:
                     rep.check(ok, "class-level-state", ci.qualname, U(st).splitlines()[0][:100],
                               f"class-level attribute `{U(t)}` of {ci.name} is a constant (a mutable object here would be shared by all instances and solves)",
                               f"{mod.relpath}:{st.lineno}")
+    return n_bind
+
+
+def run(prog: Program, rep, tier: str) -> None:
+    rep.explanation = EXPLANATION
+    rep.assumptions += ["numpy / scipy kernels are deterministic", "the caller's Problem is itself stateless or caches safely (C11 covers what the library does to it)"]
+    mods = [m for m in prog.modules.values() if prog.in_scope(m)]
+    # ---- rule 1: module-level state, class-level attributes, defaults -------------------------
+    n_bind = static_state(prog, rep, mods)
     for fi in prog.iter_functions():
         if not prog.in_scope(fi):
             continue
@@ -480,6 +486,46 @@ def sources(prog: Program, rep) -> None:
                 if isinstance(itx, ast.Set) or (isinstance(itx, ast.Call) and dotted(itx.func) in ("set", "frozenset")):
                     rep.fail("no-nondeterministic-source", fi.qualname, U(itx)[:60], "VIOLATED: iteration over a set (order depends on hashing)", fi.loc(itx))
     rep.pin("clock / RNG call sites classified", n, 3)
+    # process-wide numeric settings: a solve must leave numpy's floating-point error mode (and similar global switches) as it found
+    # them on EVERY exit, or the next solve in the process computes under different rules (warnings become exceptions, ...)
+    GLOBAL_SETTERS = ("np.seterr", "numpy.seterr", "np.seterrcall", "numpy.seterrcall", "np.setbufsize", "np.set_printoptions", "warnings.simplefilter",
+                      "warnings.filterwarnings", "sys.setrecursionlimit", "np.random.seed", "numpy.random.seed", "random.seed")
+    n_set = 0
+    for fi in prog.iter_functions():
+        if not prog.in_scope(fi):
+            continue
+        pm = None
+        for node in own_nodes(fi.node):
+            if not (isinstance(node, ast.Call) and (dotted(node.func) or "") in GLOBAL_SETTERS):
+                continue
+            n_set += 1
+            d = dotted(node.func)
+            pm = pm or parent_map(fi.node)
+            # accepted: the restoring call inside a `finally:`; a setting call whose statement is immediately followed (same block) by a
+            # try statement whose finally restores with the same setter
+            cur, in_finally = node, False
+            while id(cur) in pm:
+                par = pm[id(cur)]
+                if isinstance(par, ast.Try) and any(cur is x for x in par.finalbody):
+                    in_finally = True
+                cur = par
+            ok = in_finally
+            if not ok:
+                st = node
+                while id(st) in pm and not isinstance(st, ast.stmt):
+                    st = pm[id(st)]
+                blk_owner = pm.get(id(st))
+                for fld in ("body", "orelse", "finalbody"):
+                    blk = getattr(blk_owner, fld, None)
+                    if isinstance(blk, list) and any(x is st for x in blk):
+                        k = [i for i, x in enumerate(blk) if x is st][0]
+                        nxt = blk[k + 1] if k + 1 < len(blk) else None
+                        if isinstance(nxt, ast.Try) and any(isinstance(c, ast.Call) and dotted(c.func) == d for fb in nxt.finalbody for c in ast.walk(fb)):
+                            ok = True
+            rep.check(ok, "process-global-settings", fi.qualname, U(node)[:70],
+                      f"`{d}` changes a process-wide setting; it is restored in a `finally:` on every exit (use `with np.errstate(..)`)", fi.loc(node))
+    if n_set == 0:
+        rep.ok("process-global-settings", "all in-scope functions", "no call changes a process-wide numeric / warning setting")
 
 
 def _module_const(mod: Module, name: str) -> bool:
